@@ -284,7 +284,7 @@ EXEMPT_MODE = {
 
 
 def mode_rules(repo, pid, modules):
-    from .ipalias import rule_ipalias
+    from .ipalias import rule_ipalias, rule_lostupdate
     from .unused import rule_unused
     return [rule_dtype_mod(repo, pid + '.DTMOD', modules, EXEMPT_DT), rule_mode(repo, pid + '.MODE', modules, EXEMPT_MODE),
-            rule_ipalias(repo, pid + '.IPA', modules), rule_unused(repo, pid + '.UNUSED', modules), rule_cast(repo, pid + '.CAST', modules), rule_api(repo, pid + '.API', modules)]
+            rule_ipalias(repo, pid + '.IPA', modules), rule_unused(repo, pid + '.UNUSED', modules), rule_cast(repo, pid + '.CAST', modules), rule_api(repo, pid + '.API', modules), rule_lostupdate(repo, pid + '.LOST', modules)]
